@@ -310,9 +310,17 @@ PROPS["C19"] = dict(
 )
 
 
+def _mod(name):
+    """engine modules, whether this file is imported as engine.props (check) or as props (setup_all.py)"""
+    import importlib
+    try:
+        return importlib.import_module("engine." + name)
+    except ImportError:
+        return importlib.import_module(name)
+
+
 def _c18_prepare(st, tier):
-    from engine import snapshots
-    snapshots.prepare()
+    _mod("snapshots").prepare()
 
 
 _C18_COMMON = dict(extra_sources=["engine/env_fs.c"], ldflags=["-ldl"], prepare=_c18_prepare)
@@ -367,8 +375,7 @@ PROPS["C10"] = dict(
 
 
 def _c20_prepare(st, tier):
-    from engine import build as _b
-    _b.build_tools("asan")
+    _mod("build").build_tools("asan")
 
 
 PROPS["C20"] = dict(
@@ -386,9 +393,49 @@ PROPS["C20"] = dict(
                    args={"quick": ["--stage", "other"], "thorough": ["--stage", "other"]})],
     explanation="Expressions are fed in batches of 400 on the standard input of one hwloc-calc process per (topology, option set); every single "
                 "location is run again on the command line. A tool that does not finish within 20 s is killed and reported as a hang.",
-    bounds={"quick": "10 topologies (<= 8 PUs) for hwloc-calc, 12 for the other tools; second operands from a reduced list of 24 locations; malformed lists on 3 topologies",
+    bounds={"quick": "every second synthetic description and every XML fixture (<= 8 PUs) for hwloc-calc, 12 topologies for the other tools; second operands from a reduced list of 24 locations; malformed lists on 3 topologies",
             "thorough": "all 26 topologies; richer ranges, 3-location sequences, second operands from 60 locations"},
     assumptions=COMMON_ASSUMPTIONS + ["objects without an OS index cannot be named with physical indexes: --largest -p outputs naming such objects are counted, not compared",
                                       "--largest is an error for sets that leave the topology: such expressions are exercised with the other option sets only",
                                       "graphical and interactive lstopo outputs are not covered"],
+)
+
+
+def _c17_prepare(st, tier):
+    import subprocess, os
+    _b = _mod("build")
+    o = os.path.join(_b.BUILD, "mon", "c17_padb.o")
+    os.makedirs(os.path.dirname(o), exist_ok=True)
+    src = os.path.join(_b.VERIF, "engine", "c17_padb.c")
+    if not os.path.exists(o) or os.path.getmtime(o) < os.path.getmtime(src):
+        subprocess.check_call(["clang", "-O1", "-fno-pie", "-c", src, "-o", o])
+
+
+def _c17_stage(name, parts, dl):
+    import os
+    padb = os.path.join(os.path.dirname(os.path.dirname(os.path.abspath(__file__))), "build", "mon", "c17_padb.o")
+    return simple(name, "c17_threads", variant="mon", parts=parts, deadline=dl, extra_sources=["engine/mcsched.c"],
+                  ldflags=[padb, "-ldl"], prebuild=_c17_prepare,
+                  args={"quick": ["--stage", name], "thorough": ["--stage", name]})
+
+
+PROPS["C17"] = dict(
+    level_text="Exhaustive within bounds: stateless model checking of real threads over the real library. Every schedule with at most B preemptions "
+               "of T worker threads is executed for every tuple of reader battery groups on a shared refreshed topology and for every tuple of "
+               "init/load/modify/export/destroy histories on per-thread topologies. Scheduling points are the interposed pthread_mutex operations "
+               "and every access to a library global made without a mutex (all of the library's .data/.bss is one PROT_NONE region while a schedule "
+               "runs; accesses trap and are single-stepped). Oracles: happens-before race detection on the globals, MMU write detection on the "
+               "shared topology, per-thread result equality with the single-threaded run, deadlock detection.",
+    technique="stateless model checking of the implementation under a controlled scheduler with iterative preemption bounding (CHESS style), scheduling points from mutex interposition and MMU traps on library globals; vector-clock race detector",
+    design_ref="DESIGN.md 5 (C17), 2.6",
+    stages=[_c17_stage("readers", 16, {"quick": 240, "thorough": 3000}), _c17_stage("independent", 10, {"quick": 300, "thorough": 6000})],
+    explanation="A reader that stores into the shared topology races with every other reader whatever the schedule, so the MMU check decides the "
+                "topology part independently of the bound; schedules matter for the process-wide state (component registry, cached environment "
+                "variables), which is where the scheduling points are.",
+    bounds={"quick": "readers: 2 threads, 3 topologies, all 45 unordered pairs of 9 battery groups, preemption bound 2; independent: 2 threads, all 10 unordered pairs of 4 histories, preemption bound 1",
+            "thorough": "readers: 3 threads, 6 topologies, all 165 unordered triples, bound 3; independent: 3 threads, all 20 triples, bound 2 (tuples that exceed the budget are reported with the bound they completed)"},
+    assumptions=COMMON_ASSUMPTIONS + ["sequentially consistent memory: weak-memory reorderings are not modelled",
+                                      "races are detected on the library's own global variables and on the shared topology; libc, libxml2 (the built-in XML backend is forced) and the kernel are trusted",
+                                      "an access to a global from inside a system call does not trap (none is known in the library)",
+                                      "the documented precondition (hwloc_topology_refresh() after modifications) is established by the harness"],
 )
